@@ -5,7 +5,7 @@ from fractions import Fraction
 import vlib, fock
 
 CLAIM = {
- "text": "Proof (Lean 4), partial. The QFT gate-list generator (recursive H + controlled-phase ladder, register swap, inverse option) is modelled over an abstract angle type; proved for every qubit list: the inverse=True list is exactly the gate-by-gate inverse (reversed order, negated angles, swaps self-inverse) of the inverse=False list for swap on and off, gate counts n + n(n-1)/2 (+ n div 2 swaps), every gate acts inside the listed qubits. The iterative phase-estimation controller (bitplace / accumulated feedback phase / measurement record, reset between shots) is modelled as a state machine over dyadic rationals; proved for every register size n and every representable phase m / 2^n: in round k the total kick-back plus feedback phase is an integer multiple of pi (the outcome is certain), its parity is bit k of m, the reversed record read as a binary fraction is m / 2^n, and this holds for every shot of any number of shots (the controller state after finalize equals the initial one). The bitstring-to-phase conversion of both solvers is proved to invert the binary expansion. The multiplexor base identity (R(a) X R(b) X = R(a-b), R(a) R(b) = R(a+b) for RY and RZ) is proved over any commutative ring with the documented gate matrices. NOT proved in Lean: that the ladder implements the discrete Fourier transform, the Bloch-angle computations of state preparation (arccos / angle of floats), the controlled time evolution; those are decided by the numerical oracle: unitary of the generated circuit against the DFT matrix for random qubit lists inside wider registers, prepared / uncomputed states against random complex vectors (dense, sparse, real) in both orders, and QPE / iQPE runs on exact eigenstates (circuit unitaries, diagonal and non-diagonal commuting Hamiltonians) with several shots.",
+ "text": "Proof (Lean 4), partial. The QFT gate-list generator (recursive H + controlled-phase ladder, register swap, inverse option) is modelled over an abstract angle type; proved for every list of distinct qubits: the inverse=True list is the gate-by-gate inverse (reversed order, negated angles) of the inverse=False list when swap is off, and differs from it only by the order of the swap layer when swap is on; on the register semantics (every register size, every state) QFT followed by the inverse=True circuit is the identity in both cases (H^2 = 1, controlled phases with opposite angles cancel, the swap layer consists of pairwise disjoint swaps and is an involution), gate counts n + n(n-1)/2 (+ n div 2 swaps), every gate acts inside the listed qubits. The iterative phase-estimation controller (bitplace / accumulated feedback phase / measurement record, reset between shots) is modelled as a state machine over dyadic rationals; proved for every register size n and every representable phase m / 2^n: in round k the total kick-back plus feedback phase is an integer multiple of pi (the outcome is certain), its parity is bit k of m, the reversed record read as a binary fraction is m / 2^n, and this holds for every shot of any number of shots (the controller state after finalize equals the initial one). The bitstring-to-phase conversion of both solvers is proved to invert the binary expansion. The multiplexor base identity (R(a) X R(b) X = R(a-b), R(a) R(b) = R(a+b) for RY and RZ) is proved over any commutative ring with the documented gate matrices. NOT proved in Lean: that the ladder implements the discrete Fourier transform, the Bloch-angle computations of state preparation (arccos / angle of floats), the controlled time evolution; those are decided by the numerical oracle: unitary of the generated circuit against the DFT matrix for random qubit lists inside wider registers, prepared / uncomputed states against random complex vectors (dense, sparse, real) in both orders, and QPE / iQPE runs on exact eigenstates (circuit unitaries, diagonal and non-diagonal commuting Hamiltonians) with several shots.",
  "note": "Trusted: Lean kernel + standard axioms; numpy; cirq simulator for the QPE/iQPE runs (C01 ties it to the gate semantics).",
  "technique": "Lean 4 theorems (QFT inverse structure, iQPE controller exactness by induction over rounds and shots, binary-fraction decoding, multiplexor identities) + generator correspondence + dense-matrix / simulation oracle"}
 
